@@ -25,6 +25,7 @@ import (
 	"encoding/binary"
 	"fmt"
 	"io"
+	"math/big"
 	"os"
 	"os/exec"
 	"runtime"
@@ -402,12 +403,31 @@ type X3 struct {
 	Tail    *XOpt  `serix:",optional"`
 }
 
+// X4: the shapes X1..X3 lack - slices of slices / strings / pointers / byte arrays / bools, a slice of a NAMED byte type,
+// an array of numbers, a big number, a map onto slices, wide prefixes where an element is small
+type XFlag uint8
+
+type X4 struct {
+	BB   [][]byte          `serix:",lenPrefix=uint16"`
+	SS   []string          `serix:",lenPrefix=uint32"`
+	PS   []*XInner         `serix:",lenPrefix=uint32"`
+	H    [][32]byte        `serix:",lenPrefix=uint32"`
+	Fl   []XFlag           `serix:",lenPrefix=uint32"`
+	Bo   []bool            `serix:",lenPrefix=uint32"`
+	N    [3]uint32         `serix:",lenPrefix=uint8"`
+	Big  *big.Int          `serix:""`
+	MB   map[uint32][]byte `serix:",lenPrefix=uint32"`
+	Deep [][][]uint8       `serix:",lenPrefix=uint8"`
+}
+
 var xAPI = func() *serix.API {
 	api := serix.NewAPI()
 	must(api.RegisterTypeSettings(Circle{}, serix.TypeSettings{}.WithObjectType(uint8(1))))
 	must(api.RegisterTypeSettings(Square{}, serix.TypeSettings{}.WithObjectType(uint8(2))))
 	must(api.RegisterInterfaceObjects((*Shape)(nil), Circle{}, Square{}))
 	must(api.RegisterTypeSettings("", serix.TypeSettings{}.WithLengthPrefixType(serix.LengthPrefixTypeAsByte)))
+	must(api.RegisterTypeSettings([]byte{}, serix.TypeSettings{}.WithLengthPrefixType(serix.LengthPrefixTypeAsUint32)))
+	must(api.RegisterTypeSettings([][]uint8{}, serix.TypeSettings{}.WithLengthPrefixType(serix.LengthPrefixTypeAsUint16)))
 
 	return api
 }()
@@ -420,6 +440,8 @@ func xFresh(name string) any {
 		return &X2{}
 	case "X3":
 		return &X3{}
+	case "X4":
+		return &X4{}
 	}
 	panic("unknown serix target " + name)
 }
@@ -465,6 +487,21 @@ func xSeed(name string, rng *hx.Rng) []byte {
 		}
 		if rng.Bool() {
 			x.Tail = &XOpt{}
+		}
+		v = x
+	case "X4":
+		x := &X4{Big: new(big.Int).SetBytes(rbytes(rng, 0, 32)), MB: map[uint32][]byte{}, N: [3]uint32{uint32(rng.U64()), 1, 2}}
+		for i := rng.Range(0, 2); i > 0; i-- {
+			x.BB = append(x.BB, rbytes(rng, 0, 3))
+			x.SS = append(x.SS, rstr(rng, 0, 3))
+			x.PS = append(x.PS, &XInner{K: uint8(rng.U64()), V: rbytes(rng, 0, 2)})
+			var h [32]byte
+			copy(h[:], rbytes(rng, 32, 32))
+			x.H = append(x.H, h)
+			x.Fl = append(x.Fl, XFlag(rng.U64()))
+			x.Bo = append(x.Bo, rng.Bool())
+			x.MB[uint32(rng.U64())] = rbytes(rng, 0, 3)
+			x.Deep = append(x.Deep, [][]uint8{rbytes(rng, 0, 2), rbytes(rng, 0, 2)})
 		}
 		v = x
 	}
@@ -729,6 +766,12 @@ func randRules(rng *hx.Rng) string {
 			mx = mn + rng.Intn(4)
 		}
 		mode = hx.Pick(rng, []int{0, 0, 1, 2, 3, 4, 8, 5})
+		switch rng.Intn(8) {
+		case 0, 1:
+			mode = rng.Intn(16) // every combination of the four validators
+		case 2:
+			mode = rng.Intn(256) // bits no validator is attached to
+		}
 	}
 
 	return fmt.Sprintf("%s %d %d %d", val, mn, mx, mode)
@@ -738,10 +781,13 @@ func randPrim(rng *hx.Rng, depth int) string {
 	if depth <= 0 || rng.Chance(3, 5) {
 		return randLeaf(rng)
 	}
-	switch rng.Intn(4) {
-	case 0, 1:
+	switch rng.Intn(9) {
+	case 0:
+		// ReadPayload: a length, then an object chosen by its uint32 type
+		return "p " + randAlts(rng, "d4", depth-1)
+	case 1, 2, 3, 4:
 		return "q " + hx.Pick(rng, lpToks) + " " + randRules(rng) + " ( " + randItem(rng, depth-1) + " )"
-	case 2:
+	case 5, 6:
 		d := hx.Pick(rng, []string{"d1", "d4"})
 
 		return "o " + d + " " + randAlts(rng, d, depth-1)
@@ -1656,10 +1702,32 @@ func main() {
 	nX := 2500 * scale
 	for i := 0; i < nX; i++ {
 		rng, _ := r.Rng.Fork()
-		name := hx.Pick(rng, []string{"X1", "X1", "X2", "X3"})
+		name := hx.Pick(rng, []string{"X1", "X1", "X2", "X3", "X4", "X4"})
 		valid := xSeed(name, rng)
 		data, mut := mutate(rng, valid, xSeed(name, rng), nil)
 		b.emit(fmt.Sprintf("x %s %d %s", name, rng.Intn(2), hx.Hex(data)), mut)
+	}
+	// serix.Encode does not tell where its length fields are: EVERY offset of a valid encoding is overwritten by a huge
+	// little-endian value of every prefix width (ff / ffff / ffffff7f / 00000001), so that every count and every length
+	// field of the type is hostile once, with the bytes behind it intact
+	for _, name := range []string{"X1", "X2", "X3", "X4"} {
+		for k := 0; k < 2*scale; k++ {
+			rng, _ := r.Rng.Fork()
+			valid := xSeed(name, rng)
+			for off := 0; off < len(valid); off++ {
+				for _, pat := range [][]byte{{0xff}, {0xff, 0xff}, {0xff, 0xff, 0xff, 0x7f}, {0, 0, 0, 1}} {
+					if off+len(pat) > len(valid)+1 {
+						continue
+					}
+					d2 := append([]byte(nil), valid...)
+					d2 = append(d2[:off], pat...)
+					if off+len(pat) < len(valid) {
+						d2 = append(d2, valid[off+len(pat):]...)
+					}
+					b.emit(fmt.Sprintf("x %s %d %s", name, (off+k)%2, hx.Hex(d2)), "offset-sweep")
+				}
+			}
+		}
 	}
 	// (3b) input that ENDS behind a count prefix (or behind a few complete elements) while the count denotes many more:
 	// what bounds the element loop is that an element can not be decoded from an exhausted input - every primitive
